@@ -12,7 +12,29 @@ def match_f8(f: dict) -> bool:
     return f['sig'] == 'released-early-handler' and bool(f['case'].get('id_shared_with_other_cause'))
 
 
+def gen_daemon_termination(r):
+    """Deletion of an object whose daemon does not exit when asked: the whole (backoff, timeout) grid - also backoff >= timeout -
+    with unrelated events arriving in the middle of the termination window (each one causes a cycle at an arbitrary age)."""
+    bo, to = r.choice([None, 1, 2, 3]), r.choice([1, 2, 3])
+    temper = r.choice(['ignores', 'ignores', 'cancellable'])
+    hs = [{'kind': 'daemon', 'id': 'dm0', 'temper': temper, 'duration': 2, 'ignore_max': r.choice([1, 1000]),
+           'kwargs': {'cancellation_backoff': bo, 'cancellation_timeout': to}}]
+    if r.random() < 0.4:
+        hs.append({'kind': 'delete', 'id': 'd0', 'script': r.choice([['ok'], ['temp', 'ok']]), 'kwargs': {'backoff': 1}})
+    acts = [{'a': 'create', 'obj': 'obj1', 'spec': {'a': 1}}, {'a': 'run', 'dt': r.choice([1, 2])}, {'a': 'delete', 'obj': 'obj1'}]
+    for _ in range(r.choice([0, 1, 2, 3, 4])):
+        acts.append({'a': 'run', 'dt': r.choice([0.25, 0.5, 0.75, 1, 1.25])})
+        acts.append(r.choice([{'a': 'edit_label', 'obj': 'obj1', 'labels': {'app': r.choice(['v', 'w', None])}},
+                              {'a': 'edit_status', 'obj': 'obj1', 'status': {'external': r.randrange(100)}},
+                              {'a': 'foreign_fin_add', 'obj': 'obj1', 'fin': 'other/fin'},
+                              {'a': 'foreign_fin_del', 'obj': 'obj1', 'fin': 'other/fin'}]))
+    acts.append({'a': 'run', 'dt': 8})
+    return {'cfg': cs.gen_cfg(r), 'handlers': hs, 'actions': acts}
+
+
 def gen(r, i):
+    if i % 5 == 4:
+        return gen_daemon_termination(r)
     return cs.gen_scenario(r, n_actions=12, daemons=(i % 2 == 0),
                            weights={'delete': 2.5, 'foreign_fin_add': 2.0, 'foreign_fin_del': 1.5, 'conflict422': 2.0, 'recreate': 0.2})
 
@@ -36,4 +58,11 @@ def function_level(ctx: fw.Ctx) -> None:
 
 def replay(ctx: fw.Ctx, body: dict) -> bool:
     ctx.matchers = {'F8': match_f8}
+    if 'scenario' not in (body.get('case') or {}):     # a function-level failing input: the model module replays it
+        try:
+            from kv.props import c06_model
+        except ImportError:
+            print('replay file carries no scenario and there is no function-level layer')
+            return False
+        return c06_model.replay(ctx, body)
     return cr.replay_scenario(ctx, body, MONITORS)
